@@ -7,6 +7,7 @@ package main
 
 import (
 	"fmt"
+	"go/types"
 	"sort"
 	"strings"
 
@@ -83,7 +84,11 @@ func (e *Env) quantPartsU(q *EQuant) (string, Term, Term, []unfoldT, error) {
 func (e *Env) quantParts0(q *EQuant) (string, Term, Term, error) {
 	e.vc.nfresh++
 	v := quote(fmt.Sprintf("q:%s!%d", q.Var, e.vc.nfresh))
-	env := e.with(map[string]TV{q.Var: {Term{v, SInt}, tInt}})
+	vtyp, vsort, terr := e.quantVarType(q)
+	if terr != nil {
+		return "", Term{}, Term{}, terr
+	}
+	env := e.with(map[string]TV{q.Var: {Term{v, vsort}, vtyp}})
 	env.bound = true
 	var unf []unfoldT
 	env.unfolds = &unf
@@ -105,6 +110,21 @@ func (e *Env) quantParts0(q *EQuant) (string, Term, Term, error) {
 		rng = and(le(lo.T, Term{v, SInt}), lt(Term{v, SInt}, hi.T))
 	}
 	return v, rng, body, nil
+}
+
+// quantVarType resolves the declared type of a quantifier's bound variable
+// ("forall e *Entry :: ...", "forall k string :: ..."); int when undeclared.
+func (e *Env) quantVarType(q *EQuant) (types.Type, Sort, error) {
+	if q.VType == "" || q.VType == "int" {
+		return tInt, SInt, nil
+	}
+	nerr := len(e.vc.errs)
+	t, srt := e.vc.lemmaParamType(e, q.VType)
+	if len(e.vc.errs) > nerr || t == nil {
+		e.vc.errs = e.vc.errs[:nerr]
+		return nil, SInt, fmt.Errorf("quantifier: unknown type %s", q.VType)
+	}
+	return t, srt, nil
 }
 
 func subst(t Term, sym string, by Term) Term {
@@ -137,7 +157,8 @@ func (vc *VC) assumeClause(guard Term, env *Env, cl *Clause) {
 			vc.qfacts = append(vc.qfacts, &QFact{lineIdx: len(vc.lines), guard: and(guard, h), varSym: v, body: implies(rng, body), unfolds: unf})
 			continue
 		}
-		w := vc.fresh("ex:"+q.Var, SInt)
+		_, wsort, _ := env.quantVarType(q)
+		w := vc.fresh("ex:"+q.Var, wsort)
 		vc.assume(and(guard, h), subst(and(rng, body), v, w))
 		vc.witnesses = append(vc.witnesses, &Witness{lineIdx: len(vc.lines), t: w})
 		// a universally quantified conjunct under the existential becomes a
@@ -189,13 +210,14 @@ func (vc *VC) obligeClause(kind, label, site string, guard Term, env *Env, cl *C
 				return
 			}
 			vc.nfresh++
-			sk := Term{quote(fmt.Sprintf("sk:%s!%d", q.Var, vc.nfresh)), SInt}
+			_, sksort, _ := env.quantVarType(q)
+			sk := Term{quote(fmt.Sprintf("sk:%s!%d", q.Var, vc.nfresh)), sksort}
 			goal := subst(implies(rng, body), v, sk)
 			o := vc.oblige(kind, label, psite, and(guard, h), goal, src)
 			if o == nil {
 				continue
 			}
-			o.Extra = append(o.Extra, fmt.Sprintf("(declare-const %s Int)", sk.S))
+			o.Extra = append(o.Extra, fmt.Sprintf("(declare-const %s %s)", sk.S, sksort))
 			for _, u := range unf {
 				o.Extra = append(o.Extra, "(assert "+subst(eq(u.app, u.body), v, sk).S+")")
 			}
